@@ -76,7 +76,7 @@ var required = []string{
 	"B:in-range", "B:below-min", "B:above-max", "B:in-range-with-keys", "B:in-range-optional-supplied", "B:out-of-range-arity-error",
 	"A:valid-call", "A:redefined-with-another-lambda-list", "A:too-few", "A:too-many", "A:odd-key-tail", "A:optional-default-used", "A:key-default-used",
 	"A:rest-nonempty", "A:keys-out-of-order", "A:duplicate-key", "A:unknown-key", "A:aux", "A:default-form",
-	"A:keyword-as-positional-value",
+	"A:keyword-as-positional-value", "A:called-twice-by-a-multi-list-mapcar",
 }
 
 func bound(tier string) string {
